@@ -2,7 +2,7 @@
 // Single operations over the FULL small-scope argument space, the invalid part included.  (The "propagation through
 // pipelines" clause of the property is checked by the E2 pipeline harness, not here.)
 //
-// Units (same source, one -D flag each; no flag = everything in one translation unit).  Every unit is built twice:
+// Units (same source, one -D flag each; no flag = every unit except STACK in one translation unit).  Every unit is built twice:
 // with assertions enabled (default) and with -DNDEBUG (many argument checks of nmtools live in nmtools_cassert, which
 // is <cassert>'s assert on the host: under NDEBUG an unwrap of an empty optional is silent undefined behaviour).
 //   -DC15_REARR    reshape, transpose, moveaxis (int and list form), swapaxes, expand_dims (int and list), flip (int and
@@ -37,33 +37,43 @@
 //                              a non-empty value is "wrong" with the detail prefix "empty-result:"
 //   a SIGFPE / SIGSEGV / abort (assertion, uncaught exception, sanitizer report) is recorded by the runner as kind crash.
 //   The lazy view and the evaluated array must also agree with each other.
+//   Model notes: (1) reshape: NumPy 2.4 treats ANY single negative entry as the unknown dimension although only -1 is
+//   documented and the property text calls a negative extent invalid - for exactly those targets Nothing and NumPy's value
+//   are both accepted (alt_model_of); (2) pad takes nmtools' flat ONNX-ordered width list: a list whose length is not 2*d
+//   has no NumPy counterpart and counts as invalid, negative widths raise in NumPy; (3) resize is nmtools' nearest-neighbour
+//   resampling (no NumPy counterpart): the model uses its documented precondition (same rank, every extent > 0).
+//   Candidate fixes for the failure families of the pinned tree: harness/c15_candidate_patches.diff (not applied).
 //
 // Non-triviality rule: a case is non-trivial iff NumPy raises for its arguments (the invalid part of the space - the
 // subject of this property), or the NumPy result is non-empty and differs from the first operand in shape or in
 // element order/values.  (Valid identity cases and empty-result cases are trivial.)
 //
-// Bounds (F = S(1..4,3) = 120 source shapes, d = source rank, A(d) = [-d-2, d+1], "lists <= k over R" = every list of
-// length 0..k with entries in R, duplicates included):
-//   quick tier                                                          thorough tier
-//   reshape     F x lists 1..3 over -2..4 (d = 4: length <= 2)           F x lists 1..3 over -2..4
-//   transpose / flip / sum / expand_dims (list form)
-//               F x lists <= 3 over A(d) (d >= 3: <= 2)                   F x lists <= 3 over A(d)
-//   transpose   + full-length lists: d = 3: S(3,2) x length 3 over A(3)  + S(4,2) x length 4 over [-d-1, d]
-//                 d = 4: source (1,2,3,2) x length 4 over [-d-1, d] with entries sorted by |.|-class excluded: see code
-//   moveaxis    F x A(d) x A(d) (int form); list form: S(1..4,2) x (lists <= 2 over A(d))^2 (d >= 3: <= 1 | same-length 2)
-//   swapaxes    F x A(d) x A(d)          expand_dims1 / flip1 / sum1 / cumsum: F x A(d) (expand_dims1: [-d-3, d+2])
-//   resize      F x lists 1..3 over -2..4 for d <= 3 (quick: d = 3 over -1..3), d = 4: lists of length 3, 4 over -1..2 (thorough)
-//   concat/stack  all ordered pairs of S(1..3,3) x A(d) (stack: [-d-3, d+2])     (quick: pairs of S(1..3,2) u S(1..2,3))
-//   take        F x index lists 1..2 over [-5, 4] x A(d)  (quick, d >= 3: length 1)
-//   roll1       F x shift {-1, 0, 1, 4} x A(d);  roll: per-axis shift lists, rolls: scalar shift with an axis list
-//   repeat      F x count -2..3 x A(d);  repeat_none: count -2..3;  repeatl: lists 1..4 over -1..2 x valid axes (S(1..4,2) u S(1..2,3))
-//   tile        F x lists 1..3 over -2..3 (quick, d >= 3: length <= 2)
-//   pad         every list of length 0..2d+1 over {-1,0,1} for d <= 2; d = 3: wrong lengths over {0,1}, length 6 over {-1,0,1} on S(3,2);
-//               d = 4: wrong lengths over {0,1} on S(4,2); length 8 over {-1,0,1} with <= 2 non-zero entries (thorough: <= 3)
-//   compress    F x masks 1..4 over {0,1} x A(d)
-//   bto         S(1..3,3) x lists 1..3 over -2..4;  add / barr: all ordered pairs of S(1..3,3) (thorough S(1..4,3))
-//   matmul/dot  all ordered pairs of S(1..3,3) (quick: S(1..3,2) u S(1..2,3));  tdn: same pairs x n in -2..4;
-//   tdx         pairs of S(1..2,3) (quick S(1..2,2)) x (lists <= 2 over A(da)) x (lists <= 2 over A(db))
+// Bounds.  F = S(1..4,3) (120 source shapes), Q = S(1..4,2) (30), P = S(1..3,2) (14); d = source rank; A(d) = [-d-2, d+1];
+// "lists a..b over R" = EVERY list of length a..b with entries in R (duplicates included; length 0 = the empty list).
+// On the pinned tree most invalid arguments abort (assert) - an abort costs a fork and a re-enumeration - hence the quick
+// tier keeps the abort-heavy part of the space small; nothing is sampled, every stated set is enumerated completely.
+//   SCALAR-AXIS SOURCES  quick: Q        thorough: F
+//   AXIS LISTS           quick: Q x lists 0..2 over A(d) (d = 4: 0..1)      thorough: F x lists 0..2 over A(d) and P x lists of length 3
+//   OPERAND PAIRS        quick: all ordered pairs of S(1..3,2) (196)        thorough: all ordered pairs of S(1..3,3) (1521)
+//   reshape       lists 1..3 over -2..4 on  quick: S(1..3,2) u S(1..2,3)    thorough: F
+//   transpose     AXIS LISTS + full-length lists (the only length NumPy accepts) for d = 3: source (1,2,3), length 3 over A(3);
+//                 d = 4: source (1,2,3,2) (thorough: and (2,2,2,2)), length 4 over [-d-1, d] (quick: at most one entry outside [0,d))
+//   flip, sum (keepdims absent; keepdims True on Q for lists 0..2), rolls (scalar shift 1): AXIS LISTS;  expand_dims: AXIS LISTS over [-d-3, d+2]
+//   roll (list shifts 1,2,..): AXIS LISTS of length <= 2, shift list of the same length, of length 1 and one longer
+//   swapaxes, moveaxis1: SCALAR-AXIS SOURCES x A(d) x A(d) (quick, d = 4: second axis in {-d-2,-d,-1,0,d-1,d,d+1})
+//   expand_dims1 ([-d-3,d+2]), flip1, sum1 (keepdims absent / True), cumsum, roll1 (shift -1,0,1,4), repeat (count -2..3),
+//   compress (masks 1..4 over {0,1}), take (index lists over [-5,4], length 1..2 for d <= 2 (thorough: and on Q), else 1): SCALAR-AXIS SOURCES x A(d)
+//   moveaxis      (list form) Q x (lists 0..2 over A(d))^2 for d <= 2; d >= 3: (lists 0..1)^2 and equal-length-2 lists over [-d, d] (d = 4: thorough only)
+//   resize        SCALAR-AXIS SOURCES x lists 1..3 over -2..4 (d = 3 quick: -1..3; d = 4: lists 1..3 over -1..2, length 4 over -1..2 (quick 0..2))
+//   repeat_none   count -2..3;   repeatl: Q (quick: P) x every valid axis x lists 1..k over -1..2, k = 4 (d <= 2) / 3 thorough, 3 / 2 quick
+//   tile          SCALAR-AXIS SOURCES x lists 1..3 over -2..3 (d >= 3 outside Q, and d >= 3 in the quick tier: 1..2)
+//   pad           Q; d <= 2: lists 0..2d+1 over {-1,0,1}; d >= 3: every wrong length 0..2d+1 over {0,1}, the right length over {-1,0,1}
+//                 with at most 2 non-zero entries (d = 3 thorough: all)
+//   concat        OPERAND PAIRS x A(d);   stack: OPERAND PAIRS x [-d-3, d+2]
+//   bto           S(1..3,3) x lists 1..3 over -2..4;   add, barr: all ordered pairs of S(1..3,3) (thorough: of F)
+//   matmul, dot   OPERAND PAIRS;   tdn: OPERAND PAIRS x n in -2..4
+//   tdx           lengths (0,0) (0,1) (1,0) (1,1) over A(d) on all ordered pairs of S(1..2,2) (thorough: S(1..2,3));
+//                 lengths (1,2) (2,1) (2,2) on all ordered pairs of S(1..2,2), entries over [-d, d-1] (thorough: [-d-1, d])
 #if !defined(C15_REARR) && !defined(C15_REDUCE) && !defined(C15_SELECT) && !defined(C15_STACK) && !defined(C15_BCAST) && !defined(C15_LINALG)
 #ifdef C15_REFDUMP
 #define C15_STACK
